@@ -207,8 +207,18 @@ def compare(it: Interp, op, a, b):
     hb = getattr(b, "vc_compare", None)
     if hb is not None:
         return hb(it, op, a, True)
+    if isinstance(a, ItemV) and isinstance(b, ItemV):
+        # items may be comparable among themselves (names): an order `rank` unrelated to their values.  Code that orders items
+        # instead of their values is therefore executed faithfully, and whatever depends on it fails its obligations.
+        it.trust("items compared with each other are ordered by an arbitrary injective rank unrelated to their values")
+        it.opacity_events.append(f"line {it.cur_line}: items are ordered by themselves, not by valueof")
+        x, y = L.fresh("x", L.Item), L.fresh("y", L.Item)
+        if not getattr(it, "_rank_axiom", False):
+            it._rank_axiom = True
+            it.assume(z3.ForAll([x, y], z3.Implies(L.rank(x) == L.rank(y), x == y)))
+        return SV(_CMP[type(op)](L.rank(a.t), L.rank(b.t)))
     if isinstance(a, ItemV) or isinstance(b, ItemV):
-        raise Unsupported("OPACITY: ordering comparison on an item instead of binner.valueof(item)")
+        raise Unsupported("OPACITY: ordering comparison of an item with a number")
     if isinstance(a, tuple) and isinstance(b, tuple):
         return tuple_compare(it, op, a, b)
     if isinstance(a, (str, SymStr)) or isinstance(b, (str, SymStr)):
@@ -383,7 +393,7 @@ def getitem(it: Interp, base, idx):
         m, _ = base.cls.lookup("__getitem__")
         if m is not None:
             return it.call(m, [base, idx])
-    if isinstance(base, (ClassV, ModuleV, Builtin)):      # typing subscripts such as List[int]
+    if isinstance(base, (ClassV, ModuleV, Builtin, TypeTag)):      # typing subscripts such as List[int]
         return base
     raise Unsupported(f"subscript of {type(base).__name__}")
 
@@ -650,11 +660,13 @@ def sym_sorted(it, elems, keyf, reverse):
     else:
         sort = L.IntS if all(isinstance(x, int) or L.is_int(x.t) for x in elems) else L.RealS
         res = [SV(L.fresh("srt", sort)) for _ in range(n)]
-    rkeys = [keyf(r) for r in res]
     for i in range(n):
         it.assume(z3.And(pos[i] >= 0, pos[i] < n))
-        it.assume(z3.And([z3.Implies(pos[i] == p, res[p].t == term_of(elems[i]) if not is_item else res[p].t == elems[i].t) for p in range(n)]))
+        it.assume(z3.And([z3.Implies(pos[i] == p, (res[p].t == elems[i].t) if is_item else (res[p].t == term_of(elems[i]))) for p in range(n)]))
     it.assume(z3.Distinct(pos))
+    for p in range(n):      # (redundant, helps pruning: every result element is one of the inputs)
+        it.assume(z3.Or([(res[p].t == elems[i].t) if is_item else (res[p].t == term_of(elems[i])) for i in range(n)]))
+    rkeys = [keyf(r) for r in res]      # evaluated AFTER the permutation facts, so that e.g. an index key is known to be in range
     for p in range(n - 1):
         a, b = term_of(rkeys[p]), term_of(rkeys[p + 1])
         it.assume(a >= b if reverse else a <= b)
@@ -687,6 +699,10 @@ def sseq_sorted(it, src: SSeq, key, reverse):
     a, b = L.fresh("a", L.IntS), L.fresh("b", L.IntS)
     ka = it.call(key, [res.wrap(z3.Select(arr, a))]) if key is not None else res.wrap(z3.Select(arr, a))
     kb = it.call(key, [res.wrap(z3.Select(arr, b))]) if key is not None else res.wrap(z3.Select(arr, b))
+    if key is None and src.kind == "item":
+        it.trust("items compared with each other are ordered by an arbitrary injective rank unrelated to their values")
+        it.opacity_events.append(f"line {it.cur_line}: sorted() orders the items by themselves, not by valueof")
+        ka, kb = SV(L.rank(ka.t)), SV(L.rank(kb.t))
     ta, tb = term_of(ka), term_of(kb)
     it.assume(z3.ForAll([a, b], z3.Implies(z3.And(0 <= a, a <= b, b < n), ta >= tb if reverse else ta <= tb)))
     # permutation witness: result[a] = source[perm[a]], perm injective into the source window
@@ -940,8 +956,18 @@ def class_matches(it, v, cls):
     raise Unsupported(f"isinstance with {cls!r}")
 
 
+_TYPECODES = {}
+
+
 def bi_isinstance(it, args, kw):
-    return class_matches(it, args[0], args[1])
+    v, cls = args[0], it.force(args[1])
+    if isinstance(v, ItemV):
+        # a type test on an opaque item: an unknown predicate of the item (lists of numbers and lists of names both exist)
+        names = tuple(sorted(getattr(c, "name", repr(c)) for c in (cls if isinstance(cls, tuple) else (cls,))))
+        code = _TYPECODES.setdefault(names, len(_TYPECODES))
+        it.opacity_events.append(f"line {it.cur_line}: isinstance() on an item")
+        return SV(L.istype(v.t, code))
+    return class_matches(it, v, cls)
 
 
 class TypeTag:
@@ -1017,6 +1043,8 @@ def bi_str(it, args, kw):
 
 
 def bi_any(it, args, kw):
+    if isinstance(args[0], QuantGen):
+        return args[0].exists()
     for x in iterate(it, args[0]):
         if truth(it, x):
             return True
@@ -1024,6 +1052,8 @@ def bi_any(it, args, kw):
 
 
 def bi_all(it, args, kw):
+    if isinstance(args[0], QuantGen):
+        return args[0].forall()
     for x in iterate(it, args[0]):
         if not truth(it, x):
             return False
@@ -1311,6 +1341,14 @@ def np_ceil(it, args, kw):
     return math.ceil(x)
 
 
+def np_isclose(it, args, kw):
+    it.trust("numpy.isclose(a, b): |a-b| <= atol + rtol*|b| with the default tolerances 1e-8, 1e-5")
+    x, y = term_of(args[0]), term_of(args[1])
+    rt, at = norm_num(kw.get("rtol", Fraction(1, 10**5))), norm_num(kw.get("atol", Fraction(1, 10**8)))
+    absf = lambda t: z3.If(t >= 0, t, -t)
+    return SV(absf(_real(x) - _real(y)) <= L.to_z3(at) + L.to_z3(rt) * absf(_real(y)))
+
+
 def ndarr_binop(it, op, a, b):
     la = a.tolist() if isinstance(a, NdArr) else None
     lb = b.tolist() if isinstance(b, NdArr) else None
@@ -1352,7 +1390,7 @@ def modelled_module(it: Interp, name):
     if name == "numpy":
         m = ModuleV("numpy")
         m.attrs.update({"zeros": Builtin("np.zeros", np_zeros), "array": Builtin("np.array", np_array), "append": Builtin("np.append", np_append),
-                        "floor": Builtin("np.floor", np_floor), "ceil": Builtin("np.ceil", np_ceil), "inf": INF,
+                        "isclose": Builtin("np.isclose", np_isclose), "floor": Builtin("np.floor", np_floor), "ceil": Builtin("np.ceil", np_ceil), "inf": INF,
                         "ndarray": TypeTag("ndarray", lambda it, v: isinstance(v, NdArr)), "int64": BUILTINS["int"],
                         "sort": Builtin("np.sort", lambda it, a, k: NdArr(sym_sorted(it, _as_numlist(it, a[0]), lambda x: x, False)))})
         return m
@@ -1525,6 +1563,29 @@ def shallow_copy(it, v):
 def sseq_comprehension(it: Interp, e, env, mod, src: SSeq):
     """[x for x in s if P(x)] on a symbolic-length sequence: supported only through the hook a contract installs"""
     hook = it.hooks.get("sseq_comprehension")
-    if hook is None:
-        raise Unsupported("list comprehension over a symbolic-length sequence")
-    return hook(it, e, env, mod, src)
+    if hook is not None:
+        return hook(it, e, env, mod, src)
+    g = e.generators[0]
+    if isinstance(e, ast.GeneratorExp) and not g.ifs and isinstance(g.target, ast.Name):
+        # (f(x) for x in s) with a boolean body: kept as a quantified formula for all()/any()
+        k = L.fresh("k", L.IntS)
+        cenv = Env(env)
+        cenv.vars[g.target.id] = src.wrap(z3.Select(src.arr, k))
+        body = it.eval(e.elt, cenv, mod)
+        if isinstance(body, SV) and L.is_bool(body.t):
+            return QuantGen(k, src, body.t)
+        if isinstance(body, bool):
+            return QuantGen(k, src, z3.BoolVal(body))
+    raise Unsupported("list comprehension over a symbolic-length sequence")
+
+
+class QuantGen:
+    """a generator of booleans over a symbolic-length sequence, consumable only by all() / any()"""
+    def __init__(self, k, seq, body):
+        self.k, self.seq, self.body = k, seq, body
+
+    def forall(self):
+        return SV(z3.ForAll([self.k], z3.Implies(z3.And(self.seq.lo <= self.k, self.k < self.seq.hi), self.body)))
+
+    def exists(self):
+        return SV(z3.Exists([self.k], z3.And(self.seq.lo <= self.k, self.k < self.seq.hi, self.body)))
